@@ -624,6 +624,27 @@ fn thread_op(k: usize, guards: &mut Vec<G>, w: &[&str]) -> Option<String> {
             }));
             if r.is_err() { "ok".into() } else { "bad-op no panic".into() }
         }
+        ["unwindLocals"] => {
+            // a panic unwinds through the open local spans above the innermost scope — and is caught inside that scope
+            struct Rev(Vec<G>);
+            impl Drop for Rev {
+                fn drop(&mut self) {
+                    while let Some(g) = self.0.pop() {
+                        drop(g);
+                    }
+                }
+            }
+            let mut i = guards.len();
+            while i > 0 && matches!(guards[i - 1], G::Local(_)) {
+                i -= 1;
+            }
+            let locals: Vec<G> = guards.drain(i..).collect();
+            let r = catch_unwind(AssertUnwindSafe(move || {
+                let _rev = Rev(locals);
+                panic!("unwind");
+            }));
+            if r.is_err() { "ok".into() } else { "bad-op no panic".into() }
+        }
         ["closeUnder"] => {
             // release the scope / collector guard beneath the still-open local spans first
             let mut i = guards.len();
